@@ -168,6 +168,12 @@ func runC11(c *Ctx) {
 	r.Extra("functions_that_may_return_a_context_error", len(ctxErr))
 	c11Residue(c, p)
 	c11PollInLoops(c, p)
+	c11NotSwallowed(c, p, ctxErr, c11SwallowAudited)
+}
+
+// c11SwallowAudited: callers that legitimately carry on after a failure of a context-polling callee.
+var c11SwallowAudited = map[string]string{
+	"(*parser.Parser).parseWithRecovery|parseStatement": "recovery mode records the error, resynchronises and goes on by design; it is entered without a context (ParseWithRecovery takes none and p.ctx is nil there), so the error cannot be a cancellation (read 2026-09-27)",
 }
 
 // c11Loops: the two entry loops poll on every iteration.
